@@ -6,6 +6,7 @@ CONSTANTS
   Cap = 2
   Weaken = "saveAlwaysHighest"
   GapFix = FALSE
+  CertRounds = {1}
   Direct = FALSE
   Timeouts = FALSE
 PROPERTY HighestMonotone
